@@ -39,6 +39,7 @@ type c18Scn struct {
 	Clients   []c18Client `json:"clients,omitempty"`
 	Buf       int         `json:"buf"`
 	SlowEst   bool        `json:"slow_est,omitempty"` // the Established callback takes a few milliseconds
+	Push      bool        `json:"push,omitempty"`     // an application goroutine keeps sending to every established client through its ServerChannel
 }
 
 const (
@@ -136,6 +137,23 @@ func newC18Server(scn *c18Scn) (*c18Server, error) {
 			time.Sleep(3 * time.Millisecond)
 		}
 		s.rec(sid, evEst)
+		if scn.Push {
+			// what a server application does: push envelopes to a client from a goroutine of its own,
+			// through the channel the callback was given - also while the server is being closed
+			go func() {
+				for i := 0; ; i++ {
+					pctx, pc := context.WithTimeout(context.Background(), time.Second)
+					m := &lime.Message{Envelope: lime.Envelope{ID: fmt.Sprintf("push%d", i)}}
+					m.SetContent(lime.TextDocument("pushed"))
+					err := ch.SendMessage(pctx, m)
+					pc()
+					if err != nil {
+						return
+					}
+					time.Sleep(50 * time.Microsecond)
+				}
+			}()
+		}
 	}
 	cfg.Finished = func(sid string) { s.rec(sid, evFin) }
 	mux := &lime.EnvelopeMux{}
@@ -403,6 +421,13 @@ func c18Sessions(scn *c18Scn) c18Obs {
 		}
 		c.sid = ses.ID
 		c.est = ses.State == lime.SessionStateEstablished
+		if c.est {
+			cc := c.cc
+			go func() { // the client keeps consuming what it is sent
+				for range cc.MsgChan() {
+				}
+			}()
+		}
 		return nil
 	}
 	for i, spec := range scn.Clients {
@@ -782,10 +807,14 @@ func runC18(env *Env) error {
 				Clients: []c18Client{{Kind: k, Phase: ph, Msgs: 1 + env.Rng.Intn(3)}}})
 		}
 	}
+	for _, k := range all {
+		scns = append(scns, c18Scn{Kind: "sessions", Listeners: all, Buf: 4, Push: true,
+			Clients: []c18Client{{Kind: k, Phase: "idle", Msgs: 1}, {Kind: k, Phase: "traffic", Msgs: 2}}})
+	}
 	nmix := env.Pick(14, 80)
 	for m := 0; m < nmix; m++ {
 		n := 2 + env.Rng.Intn(env.Pick(4, 7))
-		sc := c18Scn{Kind: "sessions", Listeners: all, Buf: []int{0, 1, 4, 16}[env.Rng.Intn(4)], DelayUs: env.Rng.Intn(3) * 200, SlowEst: m%2 == 0}
+		sc := c18Scn{Kind: "sessions", Listeners: all, Buf: []int{0, 1, 4, 16}[env.Rng.Intn(4)], DelayUs: env.Rng.Intn(3) * 200, SlowEst: m%2 == 0, Push: m%3 == 0}
 		for i := 0; i < n; i++ {
 			sc.Clients = append(sc.Clients, c18Client{Kind: all[env.Rng.Intn(3)], Phase: phases[env.Rng.Intn(len(phases))], Msgs: env.Rng.Intn(4)})
 		}
@@ -811,6 +840,9 @@ func runC18(env *Env) error {
 		env.Count(fmt.Sprintf("listeners=%d", len(c.Scn.Listeners)))
 		if c.Scn.SlowEst {
 			env.Count("slow-established-callback")
+		}
+		if c.Scn.Push {
+			env.Count("server-pushes-while-closing")
 		}
 		for _, cl := range c.Scn.Clients {
 			env.Count("phase=" + cl.Phase)
